@@ -10,14 +10,18 @@ the stack discipline leaves the trace unconsumed: machinery error) and prints on
 breaks.  Each law is a clause of one property; a check reports the verdicts charged to its own property."""
 import json
 import os
+import re
 import subprocess
 import time
 from lib import driver as D
 
+# the end event of an outermost node (the keys of an event are written in alphabetical order; items inside an event have a
+# "d" of their own - the day of a date - so the depth is read at its place, never searched for)
+END_OF_BLOCK = re.compile(r'^\{"cls":"[A-Z]","d":1,')
 CHUNK = 40000          # events per TLC run, cut at evaluation-block boundaries
-TWINS = {"C06": "andFalseNeedsBoth", "C05": "intDecimalNoPromote", "C08": "addIsSub", "C14": "byteLength"}
+TWINS = {"C06": "andFalseNeedsBoth", "C05": "intDecimalNoPromote", "C08": "addIsSub", "C14": "byteLength", "C13": "toIntegerAcceptsDecimalString"}
 # value laws (eqval/cmpval C05, arith C08, strfn C14): the node whose logged outcome the binding probe corrupts
-VALUE_PROBE = {"C05": ("Equality", "eqval"), "C08": ("Arithmetic", "arith"), "C14": ("Function", "strfn")}
+VALUE_PROBE = {"C05": ("Equality", "eqval"), "C08": ("Arithmetic", "arith"), "C14": ("Function", "strfn"), "C13": ("Function", "convfn")}
 
 
 def record_repo_tests(ctx, out):
@@ -44,7 +48,7 @@ def split_blocks(path, ctx):
             cur.write(line)
             n += 1
             total += 1
-            if n >= CHUNK and line.startswith('{"cls"') and '"d":1,' in line:
+            if n >= CHUNK and END_OF_BLOCK.match(line):
                 cur.close()
                 cur = None
     if cur:
@@ -164,7 +168,7 @@ def binding_probe(ctx, trace):
     with open(trace) as f:
         for line in f:
             lines.append(line)
-            if len(lines) >= 3000 and line.startswith('{"cls"') and '"d":1,' in line:
+            if len(lines) >= 3000 and END_OF_BLOCK.match(line):
                 break
     cut = ctx.path("nt_probe_cut.ndjson")
     open(cut, "w").writelines(lines[:1] + lines[2:])
@@ -205,7 +209,7 @@ def value_probe(ctx, trace, kind, law):
     with open(trace) as f:
         for line in f:
             lines.append(line)
-            if len(lines) >= 20000 and line.startswith('{"cls"') and '"d":1,' in line:
+            if len(lines) >= 100000 and END_OF_BLOCK.match(line):
                 break
     opened, kids, victim = {}, {}, None
     for i, line in enumerate(lines):
@@ -226,9 +230,11 @@ def value_probe(ctx, trace, kind, law):
         elif kind == "Arithmetic" and r["hi"] and abs(r["iv"]) < 1000000 and len(mine) == 2 and all(k["ok"] and valued(k["outv"], ("Integer",)) for k in mine):
             r["iv"] += 1
             r["outv"] = ["Integer:%d" % r["iv"]]
-        elif kind == "Function" and b.get("p") == "Length" and r["hi"] and valued(b.get("inv", []), ("String",)):
+        elif kind == "Function" and law == "strfn" and b.get("p") == "Length" and r["hi"] and valued(b.get("inv", []), ("String",)):
             r["iv"] += 1
             r["outv"] = ["Integer:%d" % r["iv"]]
+        elif kind == "Function" and law == "convfn" and b.get("p") in ("ConvertsToInteger", "ConvertsToBoolean", "ConvertsToDecimal", "ConvertsToString") and r["cls"] in ("T", "F") and valued(b.get("inv", []), ("Integer", "Boolean", "Decimal", "String")):
+            r["cls"] = "F" if r["cls"] == "T" else "T"
         else:
             continue
         victim = i
